@@ -42,7 +42,7 @@ def showStmt : Stmt → String
     s!"(D ({h.var} {showNats h.start} {showNats h.stop} {stp} {sb h.chunked} {sb h.tab}) {showStmt body} {showStmt next})"
 
 open C26.Tiling in
-def handleTile (rest : List Sexp) : String :=
+def handleTile (prog : Opts → C26.Prog St) (rest : List Sexp) : String :=
   match rest with
   | [.list [.atom "opt", size, extra], .list [.atom "tab", bound, .list tags], nest] =>
     let sz : OptVal := match size with
@@ -52,7 +52,7 @@ def handleTile (rest : List Sexp) : String :=
     let assoc : List (Nat × Nat) := tags.filterMap fun e =>
       match e.natList with | [k, v] => some (k, v) | _ => none
     let tab : Tab := { bound := bound.nat?.getD 0, tags := fun k => (assoc.find? (·.1 == k)).map (·.2) }
-    let r := C26.run (tilingProg ⟨sz, b (extra.nat?.getD 0)⟩) ⟨parseStmt nest, tab⟩
+    let r := C26.run (prog ⟨sz, b (extra.nat?.getD 0)⟩) ⟨parseStmt nest, tab⟩
     s!"({so r.2} {r.1.tab.bound} {showStmt r.1.nest})"
   | _ => "bad-tile"
 
@@ -81,7 +81,9 @@ def handle (s : Sexp) : String :=
       let r := C26.run (C26.a2lVerbose (b verbose) (fun _ => b c1) (fun _ => b c2)) ⟨false, false⟩
       s!"({so r.2} {sb r.1.comment} {sb r.1.loops})"
     | _ => "bad-a2l"
-  | .list (.atom "tile" :: rest) => handleTile rest
+  | .list (.atom "tile" :: rest) => handleTile C26.Tiling.tilingProg rest
+  | .list (.atom "chunk" :: rest) => handleTile C26.Tiling.chunkTransProg rest
+  | .list (.atom "swap" :: rest) => handleTile (fun _ => C26.Tiling.swapTransProg) rest
   | _ => "bad-request"
 
 def main : IO Unit := run handle
